@@ -20,8 +20,12 @@ values; Utf8Lossy laws) and emits one case per input. Every case is lexed by the
 Arbitrary bytes (random, lexical soup, the ui-tests corpus, its truncations and mutations) are
 checked against the tiling condition of spec/Trace_Lex.tla: by TLC on a sample of the recorded
 token streams and by the same condition in Python on all of them."""
+import glob
+import hashlib
 import json
+import multiprocessing
 import os
+import shutil
 from concurrent.futures import ThreadPoolExecutor
 
 import vlib
@@ -30,7 +34,7 @@ from vlib import Check, run_tlc, tlc_must_pass, run_cases
 
 PROP = "C14"
 BATCH = 100_000
-MAX_PER_SIG = 3
+MAX_PER_SIG = 2
 
 # (cfg name, what it is)
 QUICK = ["ops_quick", "nums_quick", "mixed_quick", "items1_quick", "items2_quick", "items3",
@@ -38,13 +42,24 @@ QUICK = ["ops_quick", "nums_quick", "mixed_quick", "items1_quick", "items2_quick
 THOROUGH = ["ops", "nums", "mixed", "items1", "items2", "items3", "frag", "tbfrag", "utf8", "scalar"]
 
 
-class Run:
-    def __init__(self, chk):
-        self.chk = chk
+NPROC = 6
+
+
+class Acc:
+    """What one batch (in a pool worker) or the whole run (in the main process) observed."""
+
+    def __init__(self):
+        self.n = 0
+        self.digests = []          # blake2b-8 of (universe, bytes) of the non-trivial inputs
+        self.outside = 0
         self.by_sig = {}
+        self.dis = []              # (sig, what, payload), at most MAX_PER_SIG per sig
         self.outcomes = {}
         self.tokkinds = {}
         self.py_codec_checked = 0
+        self.samples = []
+        self.sampled = []          # volume: harness results for Trace_Lex
+        self.rejected = []         # volume: harness results the Python evaluator rejected
 
     def outcome(self, universe, what):
         d = self.outcomes.setdefault(universe, {})
@@ -55,61 +70,111 @@ class Run:
         n = self.by_sig.get(key, 0)
         self.by_sig[key] = n + 1
         if n < MAX_PER_SIG:
-            self.chk.disagree(sig, what, payload)
+            self.dis.append((sig, what, payload))
 
-    def check_batch(self, universe, cases, volume=False):
-        """cases: specification cases ({b, st, cls, at, t}) or, for volume, {b} only."""
-        chk = self.chk
-        hc = [lu.lex_case(c["b"]) for c in cases]
+
+def check_batch(acc, universe, cases, volume=False):
+    """cases: specification cases ({b, st, cls, at, t}) or, for volume, {b} only."""
+    hc = [lu.lex_case(c["b"]) for c in cases]
+    if volume:
+        for h in hc:
+            h["values"] = False
+    results = run_cases(hc, f"c14_w{os.getpid()}", timeout_ms=10000, workers=3)
+    tag = universe[:3].encode()
+    for c, r in zip(cases, results):
+        bs = c["b"]
+        acc.n += 1
+        if len(bs) >= 2:
+            acc.digests.append(hashlib.blake2b(tag + bytes(bs), digest_size=8).digest())
+        payload = {"bytes": list(bs), "universe": universe,
+                   "expected": None if volume else {k: c[k] for k in ("st", "cls", "at", "t")}}
+        if vlib.is_crash(r):
+            acc.outcome(universe, "crash")
+            acc.disagree({"kind": "lex", "class": "crash", "universe": universe},
+                         f"lexing {lu.show(bs)} crashed: {vlib.crash_desc(r)}", payload)
+            continue
+        v = lu.tiling_violation(r)
+        if v is not None:
+            acc.outcome(universe, "tiling-violation")
+            acc.disagree({"kind": "lex", "class": "tiling", "universe": universe}, f"{lu.show(bs)}: {v}", payload)
+            if len(acc.rejected) < 3:
+                acc.rejected.append(r)
         if volume:
-            for h in hc:
-                h["values"] = False
-        results = run_cases(hc, "c14", timeout_ms=10000)
-        for c, r in zip(cases, results):
-            bs = c["b"]
-            chk.count(key=universe[:3] + bytes(bs).hex(), nontrivial=len(bs) >= 2)
-            payload = {"bytes": list(bs), "universe": universe,
-                       "expected": None if volume else {k: c[k] for k in ("st", "cls", "at", "t")}}
-            if vlib.is_crash(r):
-                self.outcome(universe, "crash")
-                self.disagree({"kind": "lex", "class": "crash", "universe": universe},
-                              f"lexing {lu.show(bs)} crashed: {vlib.crash_desc(r)}", payload)
-                continue
-            v = lu.tiling_violation(r)
-            if v is not None:
-                self.outcome(universe, "tiling-violation")
-                self.disagree({"kind": "lex", "class": "tiling", "universe": universe},
-                              f"{lu.show(bs)}: {v}", payload)
-                c["_tiling"] = v
-            if volume:
-                self.outcome(universe, "error" if "error" in r["all"] else "tokens")
-                continue
-            st = c["st"]
-            self.outcome(universe, "spec-" + (st if st != "err" else "err-" + c["cls"]))
-            if st == "outside":
-                chk.outside += 1
-                continue
-            if st == "ok":
-                for t in c["t"]:
-                    self.tokkinds[t[0]] = self.tokkinds.get(t[0], 0) + 1
-            d = lu.compare(c, r)
-            if d is not None:
-                cls, tok, text, detail = d
-                self.disagree({"kind": "lex", "class": cls, "tok": tok, "detail": detail, "universe": universe},
-                              text, payload)
-        chk.traces_validated += len(cases)
-        return results
+            acc.outcome(universe, "error" if "error" in r["all"] else "tokens")
+            if v is None and len(bs) <= 400 and len(acc.sampled) < 400 and acc.n % 7 == 0:
+                acc.sampled.append(r)
+            continue
+        st = c["st"]
+        acc.outcome(universe, "spec-" + (st if st != "err" else "err-" + c["cls"]))
+        if st == "outside":
+            acc.outside += 1
+            continue
+        if st == "ok":
+            for t in c["t"]:
+                acc.tokkinds[t[0]] = acc.tokkinds.get(t[0], 0) + 1
+        d = lu.compare(c, r)
+        if d is not None:
+            cls, tok, text, detail = d
+            acc.disagree({"kind": "lex", "class": cls, "tok": tok, "detail": detail, "universe": universe},
+                         text, payload)
+    if cases:
+        c = cases[len(cases) // 2]
+        if volume:
+            acc.samples.append({"universe": universe, "input": lu.show(c["b"][:60]), "bytes": len(c["b"])})
+        else:
+            acc.samples.append({"universe": universe, "input": lu.show(c["b"][:48]), "bytes": len(c["b"]), "spec": c["st"],
+                                "tokens": [[t[0], t[1], t[2]] for t in c["t"]][:8]})
 
 
-def tlc_cases(res):
-    batch = []
-    for c in res.lines("CASE"):
-        batch.append(c)
-        if len(batch) >= BATCH:
-            yield batch
-            batch = []
-    if batch:
-        yield batch
+def read_tlc_chunk(path, start, end):
+    """The CASE payloads of the lines of a TLC output file that begin in [start, end)."""
+    prefix = b'<<"CASE", '
+    out = []
+    with open(path, "rb") as f:
+        if start > 0:
+            f.seek(start - 1)
+            f.readline()           # the line that began before `start` belongs to the previous chunk
+        while f.tell() < end:
+            line = f.readline()
+            if not line:
+                break
+            if line.startswith(prefix):
+                lit = line[len(prefix):].rstrip()
+                if lit.endswith(b">>"):
+                    lit = lit[:-2]
+                out.append(json.loads(json.loads(lit)))
+    return out
+
+
+def work(task):
+    """Runs in a pool worker: one batch, returns its Acc."""
+    acc = Acc()
+    kind, universe = task[0], task[1]
+    if kind == "tlc":
+        cases = read_tlc_chunk(*task[2:])
+        if universe == "utf8":
+            # cross-check of the Python codec oracle (py-lossy) with Lex.tla's Utf8Lossy
+            for c in cases:
+                bs = bytes(c["b"])
+                if c["st"] == "ok" and c["t"][0][0] == "String" and bs[:1] in (b'"', b"'") and b"\\" not in bs:
+                    if [ord(ch) for ch in bs[1:-1].decode("utf-8", "replace")] != c["t"][0][3]:
+                        raise vlib.ToolError(f"Utf8Lossy of Lex.tla and CPython disagree on {bs!r}")
+                    acc.py_codec_checked += 1
+        check_batch(acc, universe, cases)
+    elif kind == "cases":
+        check_batch(acc, universe, task[2])
+    elif kind == "gen":
+        _, _, seed, chunk, n = task
+        r = vlib.rng(seed, f"c14-{universe}-{chunk}")
+        if universe == "random":
+            inputs = lu.gen_random(r, n)
+        else:
+            ds = [d for (_, d) in lu.corpus() if d]
+            inputs = [lu.mutate(r, r.choice(ds)) for _ in range(n)]
+        check_batch(acc, universe, [{"b": b} for b in inputs], volume=True)
+    elif kind == "volume":
+        check_batch(acc, universe, [{"b": b} for b in task[2]], volume=True)
+    return acc
 
 
 # ---------------------------------------------------------------------------
@@ -181,7 +246,7 @@ def lossy_cases(tier, rng):
     bodies = [bytes([a, b]) for a in range(256) for b in range(256)]
     if tier == "quick":
         bodies = rng.sample(bodies, 6000)
-    n_rand = 8000 if tier == "quick" else 250000
+    n_rand = 8000 if tier == "quick" else 100000
     for _ in range(n_rand):
         bodies.append(bytes(rng.choice(INTERESTING) for _ in range(rng.randrange(1, 7))))
     out = []
@@ -208,15 +273,19 @@ def lossy_cases(tier, rng):
 
 # ---------------------------------------------------------------------------
 
-def volume_inputs(tier, seed):
-    """(universe, list of byte strings) for the tiling property on arbitrary bytes."""
+def volume_tasks(tier, seed):
+    """Pool tasks for the tiling property on arbitrary bytes."""
     r = vlib.rng(seed, "c14-volume")
     files = lu.corpus()
-    n_rand = 45_000 if tier == "quick" else 1_200_000
-    n_mut = 12_000 if tier == "quick" else 250_000
+    n_rand = 45_000 if tier == "quick" else 600_000
+    n_mut = 12_000 if tier == "quick" else 150_000
     per_file_trunc = 6 if tier == "quick" else 60
-    yield "random", lu.gen_random(r, n_rand)
-    yield "corpus", [d for (_, d) in files]
+    step = 15_000 if tier == "quick" else 50_000
+    for k in range(0, n_rand, step):
+        yield ("gen", "random", seed, k // step, min(step, n_rand - k))
+    for k in range(0, n_mut, step):
+        yield ("gen", "mutated", seed, k // step, min(step, n_mut - k))
+    yield ("volume", "corpus", [d for (_, d) in files])
     trunc = []
     for _, d in files:
         pts = set(range(0, min(len(d), 24)))
@@ -225,13 +294,12 @@ def volume_inputs(tier, seed):
         hot = [i + 1 for i, ch in enumerate(d) if ch in b"\"'\\|/*@"]
         if hot:
             pts |= set(r.sample(hot, min(len(hot), per_file_trunc)))
-        trunc.extend(d[:p] for p in sorted(pts) if len(d[:p]) <= 20000)
-    yield "truncated", trunc
-    ds = [d for (_, d) in files if d]
-    yield "mutated", [lu.mutate(r, r.choice(ds)) for _ in range(n_mut)]
+        trunc.extend(d[:p] for p in sorted(pts) if p <= 20000)
+    for k in range(0, len(trunc), 8000):
+        yield ("volume", "truncated", trunc[k:k + 8000])
 
 
-def validate_traces(chk, run, tier, seed, sampled, rejected):
+def validate_traces(chk, tier, seed, sampled, rejected):
     """TLC (spec/Trace_Lex.tla) over the recorded streams of a sample of the volume inputs; the
     verdict must equal the Python evaluator's."""
     d = vlib.workdir("c14")
@@ -270,8 +338,11 @@ def validate_traces(chk, run, tier, seed, sampled, rejected):
         if res2.rc == 0 and not res2.error:
             raise vlib.ToolError(f"evaluators disagree: Python rejects {p2}, TLC accepts it")
         os.unlink(p2)
-    run.chk.extra["trace_lex"] = {"inputs": n_in, "events": n_ev, "negative_controls_rejected": 1 + len(rejected[:3])}
+    chk.extra["trace_lex"] = {"inputs": n_in, "events": n_ev, "negative_controls_rejected": 1 + len(rejected[:3])}
     os.unlink(path)
+
+
+CHUNK_BYTES = 16 << 20
 
 
 def run(tier, seed):
@@ -291,78 +362,90 @@ def run(tier, seed):
         "utf-8 'replace' decoder), cross-checked against Lex.tla on the TLC utf8/items universes",
     ]
     vlib.build_harness()
-    run_ = Run(chk)
     cfgs = QUICK if tier == "quick" else THOROUGH
     r = vlib.rng(seed, "c14")
+    total = Acc()
+    counts = {"tlc_cases": 0}
+    # the pool forks before any thread exists
+    pool = multiprocessing.get_context("fork").Pool(NPROC)
 
     def tlc_job(name):
-        return run_tlc("MC_Lex", f"MC_Lex_{name}.cfg", f"c14_{name}", workers=5, coverage=False,
-                       timeout=3000, heap="3g")
+        return run_tlc("MC_Lex", f"MC_Lex_{name}.cfg", f"c14_{name}", workers=3 if tier == "quick" else 5,
+                       coverage=False, timeout=3000, heap="3g")
 
-    total_tlc_cases = 0
-    with ThreadPoolExecutor(max_workers=3) as ex:
-        futs = [(name, ex.submit(tlc_job, name)) for name in cfgs]
-        # meanwhile: the Python-oracle universes
+    def tasks(futs):
         for uni, gen in (("py-scalars", scalar_cases), ("py-escapes", escape_cases), ("py-lossy", lossy_cases)):
             cases = gen(tier, r)
-            for i in range(0, len(cases), BATCH):
-                run_.check_batch(uni, cases[i:i + BATCH])
+            for i in range(0, len(cases), 25_000):
+                yield ("cases", uni, cases[i:i + 25_000])
+        yield from volume_tasks(tier, seed)
         for name, fut in futs:
             res = fut.result()
             tlc_must_pass(res, f"Lex laws on universe {name}")
             chk.add_tlc(res, f"MC_Lex {name}: laws + case emission")
-            uni = name.replace("_quick", "")
-            n = 0
-            for batch in tlc_cases(res):
-                if uni == "utf8":
-                    # cross-check of the Python codec oracle with Lex.tla's Utf8Lossy
-                    for c in batch:
-                        bs = bytes(c["b"])
-                        if c["st"] == "ok" and c["t"][0][0] == "String" and bs[:1] in (b'"', b"'") \
-                                and b"\\" not in bs:
-                            if [ord(ch) for ch in bs[1:-1].decode("utf-8", "replace")] != c["t"][0][3]:
-                                raise vlib.ToolError(f"Utf8Lossy of Lex.tla and CPython disagree on {bs!r}")
-                            run_.py_codec_checked += 1
-                run_.check_batch(uni, batch)
-                n += len(batch)
-                if len(chk.samples) < 4 and batch:
-                    c = batch[len(batch) // 2]
-                    chk.sample({"universe": uni, "input": lu.show(c["b"]), "spec": c["st"],
-                                "tokens": [[t[0], t[1], t[2]] for t in c["t"]][:8]})
-            total_tlc_cases += n
-            if name.startswith("scalar"):
-                continue
-            if n == 0:
-                raise vlib.ToolError(f"universe {name} emitted no cases")
-    # arbitrary bytes: tiling
-    sampled, rejected = [], []
-    for uni, inputs in volume_inputs(tier, seed):
-        for i in range(0, len(inputs), BATCH):
-            cases = [{"b": b} for b in inputs[i:i + BATCH]]
-            results = run_.check_batch(uni, cases, volume=True)
-            for c, res_ in zip(cases, results):
-                if vlib.is_crash(res_):
-                    continue
-                if "_tiling" in c:
-                    rejected.append(res_)
-                elif len(sampled) < 60_000 and len(c["b"]) <= 400 and (len(sampled) % 2 == 0 or uni != "random"):
-                    sampled.append(res_)
-            if len(chk.samples) < 6 and cases:
-                c = cases[len(cases) // 3]
-                chk.sample({"universe": uni, "input": lu.show(c["b"][:60]), "bytes": len(c["b"])})
-    r2 = vlib.rng(seed, "c14-trace")
-    r2.shuffle(sampled)
-    validate_traces(chk, run_, tier, seed, sampled, rejected)
+            size = os.path.getsize(res.out_path)
+            for start in range(0, size, CHUNK_BYTES):
+                yield ("tlc", name.replace("_quick", ""), res.out_path, start, min(size, start + CHUNK_BYTES))
+
+    def merge(acc):
+        total.n += acc.n
+        chk.evaluations += acc.n
+        chk.traces_validated += acc.n
+        if len(chk.nontrivial) < 5_000_000:
+            chk.nontrivial.update(acc.digests)
+        chk.outside += acc.outside
+        total.py_codec_checked += acc.py_codec_checked
+        for u, d in acc.outcomes.items():
+            for k, v in d.items():
+                total.outcomes.setdefault(u, {})
+                total.outcomes[u][k] = total.outcomes[u].get(k, 0) + v
+                if k.startswith("spec-"):
+                    counts["tlc_cases"] += v if not u.startswith("py-") else 0
+        for k, v in acc.tokkinds.items():
+            total.tokkinds[k] = total.tokkinds.get(k, 0) + v
+        for k, v in acc.by_sig.items():
+            total.by_sig[k] = total.by_sig.get(k, 0) + v
+        seen = {}
+        for sig, what, payload in acc.dis:
+            key = json.dumps(sig, sort_keys=True)
+            seen[key] = seen.get(key, 0) + 1
+            if total.by_sig[key] - acc.by_sig[key] + seen[key] <= MAX_PER_SIG:
+                chk.disagree(sig, what, payload)
+        for smp in acc.samples:
+            if not any(x["universe"] == smp["universe"] for x in chk.samples):
+                chk.sample(smp, limit=8)
+        if len(total.sampled) < 60_000:
+            total.sampled.extend(acc.sampled)
+        total.rejected.extend(acc.rejected[:max(0, 3 - len(total.rejected))])
+
+    try:
+        with ThreadPoolExecutor(max_workers=5 if tier == "quick" else 3) as ex:
+            futs = [(name, ex.submit(tlc_job, name)) for name in cfgs]
+            for acc in pool.imap(work, tasks(futs)):
+                merge(acc)
+        pool.close()
+        pool.join()
+    finally:
+        pool.terminate()
+        for dname in glob.glob(os.path.join(vlib.WORK, "cases", "c14_w*")):
+            shutil.rmtree(dname, ignore_errors=True)
+    for name in cfgs:
+        uni = name.replace("_quick", "")
+        if uni != "scalar" and not total.outcomes.get(uni):
+            raise vlib.ToolError(f"universe {name} emitted no cases")
+    sampled = sorted(total.sampled, key=lambda x: json.dumps(x, sort_keys=True))
+    vlib.rng(seed, "c14-trace").shuffle(sampled)
+    validate_traces(chk, tier, seed, sampled, total.rejected)
 
     chk.exhaustive = True      # every TLC universe is enumerated completely (volume inputs are sampled)
-    chk.extra["outcomes_by_universe"] = run_.outcomes
-    chk.extra["expected_token_kinds"] = run_.tokkinds
-    chk.extra["spec_cases_from_tlc"] = total_tlc_cases
-    chk.extra["python_codec_cross_checked"] = run_.py_codec_checked
-    chk.extra["disagreements_by_sig"] = run_.by_sig
+    chk.extra["outcomes_by_universe"] = total.outcomes
+    chk.extra["expected_token_kinds"] = total.tokkinds
+    chk.extra["spec_cases_from_tlc"] = counts["tlc_cases"]
+    chk.extra["python_codec_cross_checked"] = total.py_codec_checked
+    chk.extra["disagreements_by_sig"] = total.by_sig
     # vacuity: both outcome classes present and every token kind expected somewhere
     oc = {}
-    for d in run_.outcomes.values():
+    for d in total.outcomes.values():
         for k, v in d.items():
             oc[k] = oc.get(k, 0) + v
     for need in ("spec-ok", "spec-err-char", "spec-err-comment", "spec-err-number", "spec-err-string",
@@ -371,8 +454,10 @@ def run(tier, seed):
             raise vlib.ToolError(f"vacuous run: no case with outcome {need}")
     for need in ("EndOfFile", "Whitespace", "Comment", "Ident", "Number", "String", "TextBlock", "OtherOp",
                  "Dollar", "Importbin", "PlusColonColonColon", "Dot"):
-        if not run_.tokkinds.get(need):
+        if not total.tokkinds.get(need):
             raise vlib.ToolError(f"vacuous run: token kind {need} never expected")
+    if not total.py_codec_checked:
+        raise vlib.ToolError("the Python codec oracle was not cross-checked against Lex.tla")
     return chk.finish()
 
 
